@@ -142,13 +142,16 @@ def pick_group(rng, tagged, k):
         c = rng.random()
         cls = "well-formed" if (i == 0 or c < 0.45) else ("malformed" if c < 0.75 else "unsolvable")
         out.append(rng.choice(by[cls]))
-    # sometimes one of the games gets a near-identical sibling in the same file
-    if rng.random() < 0.4:
+    # often one of the games gets a near-identical sibling in the same file (next to the original, not instead of it)
+    if k >= 2 and rng.random() < 0.6:
         wf = [i for i, (g, t) in enumerate(out) if t == "well-formed"]
-        if wf:
-            sib = sibling(rng, out[rng.choice(wf)][0])
+        rng.shuffle(wf)
+        for i in wf:
+            sib = sibling(rng, out[i][0])
             if sib is not None and not c10.rewarded_player_cycle(sib) and terminates(sib):
-                out[rng.randrange(k)] = (sib, "well-formed")
+                j = rng.choice([x for x in range(k) if x != i])
+                out[j] = (sib, "well-formed")
+                break
     rng.shuffle(out)
     while True:
         names = rng.sample(NAMES, k)
